@@ -1,23 +1,32 @@
 import Gengo.Basic.Proto
 import Gengo.Driver.Tags
 import Gengo.Driver.JsonTag
+import Gengo.Driver.Tracker
 open Gengo Gengo.Proto
 
-def dispatch (f : List Str) : Str :=
+/-- state of the stateful components (one history at a time per component) -/
+structure DState where
+  trk : Tracker.T := Tracker.new false []
+
+def dispatch (s : DState) (f : List Str) : DState × Str :=
   match f with
   | c :: rest =>
-    if c = str "tags" then Driver.Tags.handle rest
-    else if c = str "json" then Driver.JsonTag.handle rest
-    else str "bad-op"
-  | _ => str "bad-op"
+    if c = str "tags" then (s, Driver.Tags.handle rest)
+    else if c = str "json" then (s, Driver.JsonTag.handle rest)
+    else if c = str "trk" then
+      let (t, o) := Driver.Tracker.handle s.trk rest
+      ({ s with trk := t }, o)
+    else (s, str "bad-op")
+  | _ => (s, str "bad-op")
 
-partial def loop (h : IO.FS.Stream) (out : IO.FS.Stream) : IO Unit := do
+partial def loop (h : IO.FS.Stream) (out : IO.FS.Stream) (s : DState) : IO Unit := do
   let line ← h.getLine
   if line.isEmpty then return ()
   let l := line.toList
   let l := if l.getLast? = some '\n' then l.dropLast else l
-  out.putStrLn (String.ofList (dispatch (fields l)))
-  loop h out
+  let (s', o) := dispatch s (fields l)
+  out.putStrLn (String.ofList o)
+  loop h out s'
 
 def main : IO Unit := do
-  loop (← IO.getStdin) (← IO.getStdout)
+  loop (← IO.getStdin) (← IO.getStdout) {}
